@@ -610,3 +610,21 @@ fn resource_allocation_to_msg(
             .collect(),
     }
 }
+
+/// The real `worker_message_loop` without encryption, callable by the simulation harness.
+#[cfg(feature = "verif")]
+pub(crate) async fn verif_worker_message_loop(
+    state_ref: WorkerStateRef,
+    stream: crate::verif::ByteStream,
+) -> crate::Result<()> {
+    worker_message_loop(state_ref, stream, None).await
+}
+
+/// The real `retract_check_process`, callable by the simulation harness.
+#[cfg(feature = "verif")]
+pub(crate) async fn verif_retract_check_process(
+    check_interval: Duration,
+    state_ref: WrappedRcRefCell<WorkerState>,
+) {
+    retract_check_process(check_interval, state_ref).await
+}
